@@ -884,7 +884,9 @@ func (x *mslCall) checkCustom(c *checker) Expr {
 	fake := &Call{ExprBase: ExprBase{Pos: x.Pos}, Name: full, Args: x.Args}
 	ref, why := c.pickOverload(fake, cands)
 	if ref == nil {
-		if (x.Name == "all" || x.Name == "any") && len(x.Args) == 1 && x.Args[0].base().T == tBool {
+		if (x.Name == "all" || x.Name == "any") && len(x.Args) == 1 && mslArith(x.Args[0].base().T) {
+			// the specification lists the vector forms; whether a scalar
+			// overload exists (naga calls it for WGSL all(bool)) is not certain
 			c.unsupported(x.Pos, "%s(bool)", full)
 		}
 		if why == "ambiguous" {
